@@ -607,7 +607,7 @@ int main(int argc, char** argv)
         /* context reuse: sessions that end normally, are abandoned, or fail; then a fresh frame must be valid and identical to a fresh context's */
         int ncases = thorough ? SH(9000) : 200;
         for (i = 0; i < ncases; i++) {
-            size_t n = rndp(60) ? rndn(3000) : rndn(150000); LZ4F_preferences_t prefs; vec_t a, b; LZ4F_cctx* fresh; rec_t r; int sab = (int)rndn(5); int dk = DK_NONE; size_t dsz = 0;
+            size_t n = rndp(60) ? rndn(3000) : rndn(150000); LZ4F_preferences_t prefs; vec_t a, b; LZ4F_cctx* fresh; rec_t r; int sab = (int)rndn(5); int dk = DK_NONE; size_t dsz = 0; LZ4F_CDict* cd19 = NULL;
             memset(&a, 0, sizeof a); memset(&b, 0, sizeof b);
             /* sabotage the shared context first */
             {   LZ4F_preferences_t p0 = rand_prefs(0); u8 tmp[64]; size_t k = rndn(70000); vec_t junk; memset(&junk, 0, sizeof junk); gen_data(data, k, (int)rndn(D_KINDS));
@@ -623,13 +623,14 @@ int main(int argc, char** argv)
             gen_data(data, n, (int)rndn(D_KINDS)); prefs = rand_prefs(n);
             /* a third of the frames are begun with a raw dictionary (LZ4F_compressBegin_usingDict) and quote it: the dictionary must be loaded into whatever
              * kind of block context the history left */
-            if (rndp(35) && n >= 64) { size_t q, nq = 1 + rndn(12); dk = DK_DICT; dsz = rndp(50) ? 64 + rndn(2000) : 64 + rndn(69000);
-                for (q = 0; q < nq; q++) { size_t l = 8 + rndn(200), from = rndn((u32)dsz), to; if (l > n) l = n; if (from + l > dsz) l = dsz - from; to = rndn((u32)(n - l + 1)); memcpy(data + to, g_dictbuf + (70000 - dsz) + from, l); } n_dict_derived++; }
+            if (rndp(35) && n >= 64) { size_t q, nq = 1 + rndn(12); dk = rndp(50) ? DK_DICT : DK_CDICT; dsz = rndp(50) ? 64 + rndn(2000) : 64 + rndn(69000);
+                for (q = 0; q < nq; q++) { size_t l = 8 + rndn(200), from = rndn((u32)dsz), to; if (l > n) l = n; if (from + l > dsz) l = dsz - from; to = rndn((u32)(n - l + 1)); memcpy(data + to, g_dictbuf + (70000 - dsz) + from, l); } n_dict_derived++;
+                if (dk == DK_CDICT) cd19 = LZ4F_createCDict(g_dictbuf + (70000 - dsz), dsz);   /* a prepared dictionary: attached at every level, before every block when the blocks are independent */ }
             rec_begin(&r, OP_FRAME); rec_int(&r, K_STREAM); rec_prefs(&r, &prefs); rec_int(&r, (long long)dsz); rec_int(&r, dk); rec_bytes(&r, data, n); rec_bytes(&r, NULL, 0); cur_set(&r);
             {   u64 s = g_rs; int rc1, rc2;
-                rc1 = make_frame_stream(cctx, &prefs, data, n, dk, dsz, NULL, &a, 0);
+                rc1 = make_frame_stream(cctx, &prefs, data, n, dk, dsz, cd19, &a, 0);
                 LZ4F_createCompressionContext(&fresh, LZ4F_VERSION); g_rs = s;
-                rc2 = make_frame_stream(fresh, &prefs, data, n, dk, dsz, NULL, &b, 0);
+                rc2 = make_frame_stream(fresh, &prefs, data, n, dk, dsz, cd19, &b, 0);
                 LZ4F_freeCompressionContext(fresh);
                 r.n -= 1; rec_bytes(&r, a.p, a.n);
                 if (rc1 || rc2) c_fail(&r, rc1 ? "begin_after_history_failed" : "fresh_context_failed");
@@ -640,7 +641,7 @@ int main(int argc, char** argv)
             n_frames++;
             /* decoder side: history on the shared dctx, then this frame must decode as on a fresh context, one frame per completion */
             if (a.n) {
-                const u8* dd = dk == DK_DICT ? g_dictbuf + (70000 - dsz) : NULL; size_t dds = dk == DK_DICT ? dsz : 0;   /* the decoder is given the dictionary the frame was begun with */
+                const u8* dd = dk != DK_NONE ? g_dictbuf + (70000 - dsz) : NULL; size_t dds = dk != DK_NONE ? dsz : 0;   /* the decoder is given the dictionary the frame was begun with */
                 int hist = (int)rndn(5); decres_t d; size_t fsz = a.n; u8* two; vec_t hf; LZ4F_preferences_t hp = rand_prefs(0); size_t hn = 200 + rndn(100000);
                 /* the frame used for the history has its own preferences (content size present in half of the cases) */
                 memset(&hf, 0, sizeof hf); { u8* hd = xalloc(hn); gen_data(hd, hn, (int)rndn(D_KINDS)); hp.frameInfo.contentSize = rndp(60) ? hn : 0; { LZ4F_cctx* hc; LZ4F_createCompressionContext(&hc, LZ4F_VERSION); if (make_frame_stream(hc, &hp, hd, hn, DK_NONE, 0, NULL, &hf, 0)) hf.n = 0; LZ4F_freeCompressionContext(hc); } free(hd); }
@@ -730,7 +731,7 @@ int main(int argc, char** argv)
                     free(d3.out.p); free(buf);
                 }
             }
-            cur_clear(); rec_write(&r); free(a.p); free(b.p);
+            cur_clear(); rec_write(&r); free(a.p); free(b.p); if (cd19) LZ4F_freeCDict(cd19);
         }
     } else { fprintf(stderr, "unknown mode %s\n", mode); return 2; }
 
